@@ -459,13 +459,25 @@ func (g *genCtx) genPolicies(o genOpts) []string {
 		lines = append(lines, "custom "+wire.EncList(wire.Pick(r, [][]string{{"default"}, {"default", "p2"}, {"p2"}, {}, {"http:default"}, {"default", "http:p2"}}))+" "+wire.B(r.Chance(1, 3)))
 	}
 	wlLabels := []string{"app=httpbin", "version=v1"}
+	gateway := false
 	if o.sel {
 		wns := "foo"
 		if r.Chance(1, 6) {
 			wns = "istio-system" // a workload living in the root namespace
 		}
-		lines = append(lines, "wl istio-system "+wns+" "+wire.EncList(wlLabels))
+		labels := append([]string{}, wlLabels...)
+		ptype := "sidecar"
+		if r.Chance(1, 4) {
+			// a Gateway API gateway: policies attach by targetRefs (or by selector)
+			gateway = true
+			labels = append(labels, "gateway.networking.k8s.io/gateway-name=gw1")
+			ptype = "router"
+		} else if r.Chance(1, 6) {
+			ptype = "router" // a classic ingress gateway: selector based, like a sidecar
+		}
+		lines = append(lines, "wl istio-system "+wns+" "+wire.EncList(labels)+" "+ptype)
 	}
+	_ = gateway
 	np := 1 + r.Intn(3)
 	if r.Chance(1, 6) {
 		np = 4 + r.Intn(2)
@@ -511,10 +523,17 @@ func (g *genCtx) genPolicies(o genOpts) []string {
 			}
 		}
 		pname := fmt.Sprintf("p%d", i)
-		if !g.valid && i > 0 && r.Chance(1, 12) {
-			pname = "p0" // same name twice (impossible in Kubernetes): the later entry overwrites the map entry
+		// targetRefs (never together with a selector: the validator rejects that): ignored for sidecars, decisive
+		// for Gateway API gateways
+		refs := "-"
+		if o.sel && r.Chance(1, 4) && (sel == "-" || !g.valid) {
+			refs = wire.EncList(wire.Pick(r, [][]string{
+				{"gateway.networking.k8s.io|Gateway|gw1|"}, {"gateway.networking.k8s.io|Gateway|gw2|"},
+				{"gateway.networking.k8s.io|Gateway|gw2|", "gateway.networking.k8s.io|Gateway|gw1|"},
+				{"|Service|httpbin|"}, {"gateway.networking.k8s.io|Gateway|gw1|foo"},
+			}))
 		}
-		lines = append(lines, fmt.Sprintf("pol %s %s %s %s %s %s", action, ns, pname, dry, prov, sel))
+		lines = append(lines, fmt.Sprintf("pol %s %s %s %s %s %s %s", action, ns, pname, dry, prov, sel, refs))
 		g.customRule = action == "CUSTOM"
 		nr := 1 + r.Intn(2)
 		if action == "ALLOW" && r.Chance(1, 8) {
@@ -581,25 +600,42 @@ func gen(stream string, seed uint64, n int, outp string) {
 		}
 		switch stream {
 		case "compile":
-			out.Line("build http 1")
-			out.Line("build tcp 1")
+			// the listener builder calls BuildTCP, BuildHTTP and BuildTCPRulesAsHTTPFilter on ONE plugin builder
+			// (lazy cache); listener classes: sidecar inbound, gateway (same filters), sidecar outbound (none)
+			auth := wire.B(!r.Chance(1, 5))
+			seqs := [][]string{
+				{"tcp", "http in", "tcphttp"}, {"http in", "tcp"}, {"tcp", "http gw", "http in"},
+				{"http out", "http in", "tcp", "tcphttp"}, {"tcphttp", "http gw", "tcp", "http out"},
+			}
+			for _, b := range wire.Pick(r, seqs) {
+				kc := strings.Fields(b)
+				if len(kc) == 2 {
+					out.Line("build " + kc[0] + " " + auth + " " + kc[1])
+				} else {
+					out.Line("build " + kc[0] + " " + auth)
+				}
+			}
 			if r.Chance(1, 4) {
-				out.Line("build http 0")
-			}
-			if r.Chance(1, 8) {
-				out.Line("build tcp 0")
-			}
-			if r.Chance(1, 5) {
-				out.Line("build tcphttp 1")
+				other := wire.B(auth == "0")
+				out.Line("build http " + other + " in")
+				out.Line("build tcphttp " + other)
 			}
 		case "requests":
-			out.Line("build http " + wire.B(!r.Chance(1, 6)))
+			auth := wire.B(!r.Chance(1, 6))
+			if r.Chance(1, 3) {
+				out.Line("build tcp " + auth) // same builder first used for the TCP chain, as on a real listener
+			}
+			out.Line("build http " + auth + " " + wire.Pick(r, []string{"in", "in", "gw"}))
 			nr := 12 + r.Intn(8)
 			for i := 0; i < nr; i++ {
 				out.Line(g.genReq(true))
 			}
 		case "tcp":
-			out.Line("build tcp " + wire.B(!r.Chance(1, 6)))
+			auth := wire.B(!r.Chance(1, 6))
+			if r.Chance(1, 3) {
+				out.Line("build http " + auth + " in")
+			}
+			out.Line("build " + wire.Pick(r, []string{"tcp", "tcp", "tcp", "tcphttp"}) + " " + auth)
 			nr := 10 + r.Intn(6)
 			for i := 0; i < nr; i++ {
 				out.Line(g.genReq(false))
